@@ -14,9 +14,10 @@ PID = "C15"
 NAN = float("nan")
 
 
-def _targets(d, n):
+def _targets(d, n, missing=NAN):
     miss = [d.choose(f"missing{i}", [0, 1]) for i in range(n)]
-    yv = [NAN if miss[i] else d.fl(f"y{i}") for i in range(n)]
+    # (with the numeric sentinel -1 the targets are kept non-negative, i.e. different from it)
+    yv = [missing if miss[i] else d.fl(f"y{i}", lo=(None if missing != missing else 0.0)) for i in range(n)]
     return miss, yv, d.arr(yv), [i for i in range(n) if not miss[i]]
 
 
@@ -125,13 +126,13 @@ def make_unfittable(npm, partial=False):
     return Unfittable()
 
 
-def sc_fallback(d, n, nq, normal, partial=False):
+def sc_fallback(d, n, nq, normal, partial=False, missing=NAN):
     import skactiveml.regressor as R
-    miss, yv, y, lab = _targets(d, n)
+    miss, yv, y, lab = _targets(d, n, missing)
     xs = [d.fl(f"x{i}") for i in range(n)]
     X = d.arr([[x] for x in xs], shape=(n, 1))
     Kc = R.SklearnNormalRegressor if normal else R.SklearnRegressor
-    reg = Kc(make_unfittable(d.np, partial))
+    reg = Kc(make_unfittable(d.np, partial), missing_label=missing)
     try:
         reg.fit(X, y)
     except Exception as e:
@@ -199,7 +200,8 @@ HARNESSES = [
                                if not (k == "nic_symbolic_prior" and n > 2)],
                  UNITS[:7], required_witnesses=("no_labels", "one_label"), timeout_ms=60000, product_abstraction=True),
     dual_harness("wrapper_fallback", sc_fallback,
-                 lambda tier: [dict(n=n, nq=2, normal=nm, partial=pt) for n in ((1, 2, 3) if tier == "quick" else (1, 2, 3, 4)) for nm in (False, True) for pt in (False, True)],
+                 lambda tier: [dict(n=n, nq=2, normal=nm, partial=pt) for n in ((1, 2, 3) if tier == "quick" else (1, 2, 3, 4)) for nm in (False, True) for pt in (False, True)]
+                 + [dict(n=3, nq=1, normal=nm, partial=False, missing=-1.0) for nm in (False, True)],
                  UNITS[7:], required_witnesses=("no_labels",)),
 ]
 BOUNDS = dict(quick="n_train <= 2 (wrapper fallback <= 3), 1-2 query points, every missing pattern, symbolic features and targets, "
